@@ -65,9 +65,11 @@ class ExecutorBase {
     // to avoid task scheduling overhead on the critical path
     while (node != nullptr) {
       node->run();
+      DISPENSO_VERIF_POINT(::dispenso::verif::kGraphAfterNodeRun);
 
       const N* inlineNext = nullptr;
       for (const dispenso::Node* const d : node->dependents_) {
+        DISPENSO_VERIF_POINT(::dispenso::verif::kGraphBetweenDependents);
         if (decNumIncompletePredecessors(static_cast<const N&>(*d), std::memory_order_acq_rel)) {
           const N* dep = static_cast<const N*>(d);
           if (inlineNext == nullptr) {
